@@ -69,7 +69,7 @@ def generate(seed, prop, h, tier, jobs=(2, 3), vertex_p=0.4, fault_p=0.25, fault
         elif seam == "read":
             faults[str(ji)] = [{"seam": "read", "at": fr.randrange(15), "kind": fr.pick(["enoent", "eio", "parse", "truncated"])}]
             if fr.chance(0.3):
-                faults[str(ji)] = [{"seam": "read", "at": fr.pick([0, 0, 5, 10]), "kind": "truncated"}]  # head-count table torn
+                faults[str(ji)] = [{"seam": "read", "name": "FAOSTAT_head_and_slaughter.csv", "nth": fr.pick([0, 0, 1, 2]), "kind": "truncated"}]  # head-count table torn
         elif seam == "clock":
             faults[str(ji)] = [{"seam": "clock", "at": fr.randrange(18), "kind": "jump",
                                 "seconds": fr.pick([-86400 * 400, -3600, 59, 3600, 86400 * 31])}]
